@@ -101,6 +101,55 @@ Theorem C13_orelse_selects_anything : forall a b m, gate_exact a = true ->
 Proof. exact orelse_selects_anything. Qed.
 Print Assumptions C13_orelse_selects_anything.
 
+(** Span lifecycle points ([with_span_events]) are emissions like any other: each configured point reaches
+    [on_event] exactly once with the span's own metadata and scope, an unconfigured one never. *)
+Theorem C13_lifecycle_reaches_on_event : forall sc timing k m scope,
+  (lifecycle_on sc k = true -> exists fl, expand sc timing (OpSpan k m scope) = [Em m scope fl])
+  /\ (lifecycle_on sc k = false -> expand sc timing (OpSpan k m scope) = []).
+Proof. intros. split; [apply lifecycle_reaches_on_event | apply lifecycle_off_is_silent]. Qed.
+Print Assumptions C13_lifecycle_reaches_on_event.
+
+(** The whole pipeline of one thread (events and lifecycle points -> Full/Compact text -> buffer protocol
+    -> writer expression): what each recording sink receives. *)
+Theorem C13_thread_sinks : forall c f o sc w th ops,
+  well_typed w = true ->
+  (pol c = ClearAfterOnly -> NoAbortedFormat (thread_events f o sc th ops)) ->
+  thread_sink_log c f o sc w th ops
+  = sink_spec meta_of w (flat_map (records (lie c)) (thread_events f o sc th ops)).
+Proof. exact thread_sinks. Qed.
+Print Assumptions C13_thread_sinks.
+
+(** (c) Record content, Full and Compact.  PARTIAL: Pretty (multi-line by design) and JSON (C14) are not
+    modelled at byte level — for them the oracle checks token containment on the implementation only; the
+    event's scope and the Debug text of the values are inputs (C06 / std).
+    A completed record is the concatenation of the renderings of the specified tokens ... *)
+Theorem C13_content_partial : forall f o th m sc fl fs, ok_fields fl = Some fs ->
+  format_event f o th (Em m sc fl) = OOk (concat (map (render_tok f) (tokens_spec f o th m sc fs))).
+Proof. exact content_tokens. Qed.
+Print Assumptions C13_content_partial.
+
+(** ... which name the level, every span in scope root -> leaf with its fields (Compact, as documented:
+    only the fields), every event field with its value in order, and end with the one newline token. *)
+Theorem C13_content_names_everything_partial : forall f o th m sc fs,
+  let toks := tokens_spec f o th m sc fs in
+  (o_level o = true -> In (TLevel (e_level m)) toks)
+  /\ filter is_span_tok toks = match f with
+                               | Full => map (fun s => TSpan (s_name s) (span_fields s)) sc
+                               | Compact => span_toks_compact sc
+                               end
+  /\ filter is_field_tok toks = field_toks true fs
+  /\ exists pre, toks = pre ++ [TNewline] /\ ~ In TNewline pre.
+Proof. exact tokens_name_everything. Qed.
+Print Assumptions C13_content_names_everything_partial.
+
+(** Exactly one line: no input text with a raw newline (the property's exclusion) -> the record is
+    [body ++ "\n"] with no newline in [body]. *)
+Theorem C13_single_line_partial : forall f o th m sc fl fs, ok_fields fl = Some fs ->
+  inputs_nl_free th m sc fs = true ->
+  exists body, format_event f o th (Em m sc fl) = OOk (body ++ [10]) /\ has10 body = false.
+Proof. exact single_line. Qed.
+Print Assumptions C13_single_line_partial.
+
 Theorem C13_translator_recognised_everything : Gen_fmtbuf.gen_unrecognised = [].
 Proof. reflexivity. Qed.
 Print Assumptions C13_translator_recognised_everything.
